@@ -66,16 +66,16 @@ package kube
 //@   flag callbacks_noheap
 //@   requires h != nil && h.endpoints != nil && h.update != nil
 //@   call return#*: assert !ok
-//@   loop 0: modifies mapof(h.endpoints), changed
+//@   loop 0: modifies mapof(h.endpoints)
 //@   loop 0: invariant h.endpoints != nil
-//@   loop 1: modifies mapof(h.endpoints), changed
+//@   loop 1: modifies mapof(h.endpoints)
 //@   loop 1: invariant h.endpoints != nil
 //@ func (h *EventHandler) OnDelete
 //@   property C13
 //@   flag callbacks_noheap
 //@   requires h != nil && h.endpoints != nil && h.update != nil
 //@   call return#*: assert !ok
-//@   loop 0: modifies mapof(h.endpoints), changed
+//@   loop 0: modifies mapof(h.endpoints)
 //@   loop 0: invariant h.endpoints != nil
-//@   loop 1: modifies mapof(h.endpoints), changed
+//@   loop 1: modifies mapof(h.endpoints)
 //@   loop 1: invariant h.endpoints != nil
